@@ -30,6 +30,8 @@ package handlers
 // set with the name before and the full value after its first ':'.
 //@ spec ignoredHdr(n) = ufs_lower(n) == ufs_lower("Connection") || ufs_lower(n) == ufs_lower("Accept-Encoding")
 //@ spec hdrOK(h, ctx, x) = (contains(x, ": ") && !ignoredHdr(ufs_before(x, ": "))) ==> ufs_lower(ufs_hdrget(ctx.Request.Header, ufs_before(x, ": "))) == ufs_lower(ufs_piece1(x, ": "))
+// ncolon(k, hs): how many of the first k configured response headers have a ':'
+//@ recspec ncolon(k, hs) = ite(k <= 0, 0, ncolon(k-1, hs) + ite(contains(hs[k-1], ":"), 1, 0))
 //@ func (h *HTTP) request(ctx *gin.Context)
 //@   requires nonnil: h != nil && ctx != nil && ctx.Request != nil && ctx.Writer != nil && h.Teamserver != nil && logr.LogrInstance != nil
 //@   modifies *
@@ -37,6 +39,8 @@ package handlers
 //@   guard-call uri:     "parseAgentRequest" (len(h.Config.Uris) > 0 && !(len(h.Config.Uris) == 1 && h.Config.Uris[0] == "")) ==> exists(i, 0, len(h.Config.Uris), h.Config.Uris[i] == ctx.Request.RequestURI)
 //@   guard-call agent:   "parseAgentRequest" h.Config.UserAgent == "" || h.Config.UserAgent == ufs_hdrget(ctx.Request.Header, "User-Agent")
 //@   guard-call peer:    "parseAgentRequest" arg(2) == ite(h.Config.BehindRedir, ufs_hdrget(ctx.Request.Header, "X-Forwarded-For"), ite(ufb_hostport(ctx.Request.RemoteAddr), ufs_hostof(ctx.Request.RemoteAddr), ctx.Request.RemoteAddr))
+// by the time the protocol is entered every configured response header has been set
+//@   guard-call allhdrs: "parseAgentRequest" ghostint(ctx, "hdrs") == old(ghostint(ctx, "hdrs")) + ncolon(len(h.Config.Response.Headers), h.Config.Response.Headers)
 //@   guard-call resphdr: "Header" arg(1) == ufs_before(Header, ":") && arg(2) == ufs_after(Header, ":")
 //@   loop "for _, Header := range h.Config.Headers"
 //@     invariant seen: valid && forall(k, 0, idx__, hdrOK(h, ctx, h.Config.Headers[k])) && ctx.Request != nil && h != nil
@@ -46,6 +50,7 @@ package handlers
 //@     invariant none: !valid && forall(k, 0, idx__, h.Config.Uris[k] != ctx.Request.RequestURI) && forall(k, 0, len(h.Config.Headers), hdrOK(h, ctx, h.Config.Headers[k]))
 //@   loop "for _, Header := range h.Config.Response.Headers"
 //@     invariant keep: ctx != nil && ctx.Request != nil && ctx.Writer != nil && h != nil && h.Teamserver != nil
+//@     invariant sent: ghostint(ctx, "hdrs") == old(ghostint(ctx, "hdrs")) + ncolon(idx__, h.Config.Response.Headers)
 //@ func (h *HTTP) fake404(ctx *gin.Context)
 //@   requires nonnil: h != nil && ctx != nil && ctx.Request != nil && ctx.Writer != nil
 //@   modifies *
